@@ -67,11 +67,13 @@ CHECKS["C09"] = dict(
 CHECKS["C04"] = dict(
     technique="Coq proof (canonical JSON: insertion sort on keys is order-independent; keyword dictionaries equal as finite maps have equal pre-images; keyword order irrelevance through _compute_effective_kwargs) + exact differential check: SHA-256 of the model's pre-image bytes vs arg_hash",
     text="Theorems over Codec/Json.v + Codec/ArgHash.v: the normalized JSON of an object does not depend on member order at any depth; two effective-kwargs dictionaries binding equal values to the same names have the same pre-image; "
-         "keyword order is irrelevant for every signature / partial application / positional split; the body receives exactly the kwargs the key was computed from; non-empty context args are a member of the hashed dictionary. "
+         "keyword order is irrelevant for every signature / partial application / positional split; every presentation that binds has the key of the all-keyword presentation of its own binding; positional and keyword arguments fixed by partial application are "
+         "positional / keyword arguments of the call (any signature, any lengths); the encoding that is hashed is injective on normalized (tag-free) values of any type and depth, and refuted without that restriction (a dictionary spelled like a tagged date IS that date: the implementation normalizes it, checked); "
+         "the body receives exactly the kwargs the key was computed from; non-empty context args are a member of the hashed dictionary. "
          "The model prints the exact pre-image bytes (Python's ensure_ascii escaping, surrogate pairs, decimal integers); the harness hashes them with hashlib and compares with the implementation for generated bindings in paired presentations, "
-         "and checks hit / miss and minimally different bindings directly. Also: values equal for Python but different once normalized (+-0.0, equal instants with different offsets) incl. on a re-opened store, batch presentations under context arguments, redefinition with reordered parameters.",
-    note="Injectivity ('differs whenever a bound value or its type differs') is established for concrete type pairs by computation and checked on generated minimally-different bindings, not proved in general (it is exact only up to SHA-256 collisions and needs "
-         "the no-'_mementoType'-key hypothesis); equivalence of positional / partial / keyword presentations beyond keyword order is shown on instances and by the differential check. Float repr and isoformat are oracles.",
+         "and checks hit / miss and minimally different bindings directly. Also: values equal for Python but different once normalized (+-0.0, equal instants with different offsets) incl. on a re-opened store, batch presentations under context arguments, redefinition with reordered parameters, var-keyword signatures, several partials derived from one keyword-partial.",
+    note="PARTIAL: injectivity ('differs whenever a bound value or its type differs') is proved for the JSON value that is hashed (C04_encoding_injective_partial, all normalized values), not for its text rendering nor SHA-256: that last step is checked on the exact pre-image bytes of generated "
+         "minimally-different bindings. Partial keywords combined with call positionals (functools-style skipping of bound names) are covered by the general all-keyword theorem and the differential check, not by a flattening theorem. Float repr and isoformat are oracles.",
     ref="6/C04")
 CHECKS["C11"] = dict(
     technique="Coq proof (decode (encode x) = x by nested structural induction for arguments, function references, references with arguments and mementos; key#version split; emitted documents satisfy the frozen format predicate) + byte-exact differential check of the emitted JSON + implementation round trip",
